@@ -459,9 +459,9 @@ func c08CheckHistory(ctx *vfCtx, h c08History) {
 
 func init() {
 	rule := "non-trivial = the power-levels event is accepted and differs from the current content, or is rejected although the sender is joined and has the level to send power-levels events (i.e. rejected by a power-level rule); histories: at least two accepted steps. distinct = distinct Case JSON"
-	vfRapid("C08/pairs", rule, 5000, 200000, 16, c08GenCase, c08Check)
-	vfRapid("C08/histories", rule, 400, 10000, 16, c08GenHistory, c08CheckHistory)
-	vfRapid("C07/power-levels", "same generator as C08/pairs, judged against R-auth (accept AND reject direction); non-trivial = decided by a type-specific rule", 5000, 200000, 16, c08GenCase, c07Check)
+	vfRapid("C08/pairs", rule, 5000, 600000, 16, c08GenCase, c08Check)
+	vfRapid("C08/histories", rule, 400, 40000, 16, c08GenHistory, c08CheckHistory)
+	vfRapid("C07/power-levels", "same generator as C08/pairs, judged against R-auth (accept AND reject direction); non-trivial = decided by a type-specific rule", 5000, 600000, 16, c08GenCase, c07Check)
 }
 
 // ---------------------------------------------------------------------------------------------
